@@ -204,7 +204,11 @@ def _single_expression_helpers(src, masked, imp, methods):
             continue
         params = []
         ok = True
-        for prm in _split_args(pm.group(1)):
+        has_self = False
+        for k, prm in enumerate(_split_args(pm.group(1))):
+            if k == 0 and re.match(r"^&?\s*self$", prm.strip()):
+                has_self = True     # a method: called as `self.h(..)`, `self` stands for itself in the inlined expression
+                continue
             mm = re.match(r"^(\w+)\s*:\s*\S.*$", prm, flags=re.S)
             if not mm or mm.group(1) in ("self", "mut"):
                 ok = False
@@ -214,15 +218,15 @@ def _single_expression_helpers(src, masked, imp, methods):
         inner = "\n".join(l for l in body[1:-1].split("\n") if not l.strip().startswith("//")).strip()
         if not ok or not inner or ";" in rsitems.mask(inner) or re.search(r"\b(let|return|loop|while|for)\b", rsitems.mask(inner)):
             continue
-        helpers[name] = (params, inner)
+        helpers[name] = (params, inner, has_self)
     return helpers
 
 
 def _inline_helpers(body, helpers, log, where):
     """Rule I1: a call `Self::h(a, b)` of a single-expression helper with simple arguments (paths, optionally behind & or *)
     is replaced by the helper's expression with the arguments substituted for the parameters."""
-    for name, (params, expr) in helpers.items():
-        pat = re.compile(r"\bSelf::%s\(((?:[^()]|\((?:[^()]|\([^()]*\))*\))*)\)" % re.escape(name))
+    for name, (params, expr, has_self) in helpers.items():
+        pat = re.compile(r"\b%s%s\(((?:[^()]|\((?:[^()]|\([^()]*\))*\))*)\)" % ("self\\." if has_self else "Self::", re.escape(name)))
         def _repl(m):
             args = _split_args(m.group(1))
             if len(args) != len(params) or not all(re.match(r"^&?\s*(mut\s+)?\*?[\w.]+$", a) for a in args):
@@ -231,7 +235,7 @@ def _inline_helpers(body, helpers, log, where):
             for prm, a in zip(params, args):
                 out = re.sub(r"\b%s\b" % re.escape(prm), lambda _m, a=a: "\0%s\0" % a, out)
             out = out.replace("\0", "")
-            log.append({"rule": "I1", "site": where, "pattern": "Self::%s(%s)" % (name, m.group(1)), "replacement": out, "count": 1})
+            log.append({"rule": "I1", "site": where, "pattern": "%s%s(%s)" % ("self." if has_self else "Self::", name, m.group(1)), "replacement": out, "count": 1})
             return "(" + out + ")"
         body = pat.sub(_repl, body)
     return body
